@@ -216,6 +216,10 @@ pub fn run_keyed(ctx: &mut Ctx) {
                 if got != want { ctx.fail("C18", "chunk-table-not-keyed", "chunk lookup keys are not the truncated keyed hashes".into(), replay.clone()); }
             }
             if oinfo.metadata.chunk_hash_hmac_key != key { ctx.fail("C18", "footer-key", "footer key differs".into(), replay.clone()); }
+            // the export records its expiry (creation + validity) for every key, so that the shard stops being loaded then
+            if oinfo.metadata.shard_key_expiry != now.saturating_add(valid) {
+                ctx.fail("C18", "export-expiry-not-recorded", format!("exported shard (key {}zero, valid for {valid} s, created {now}) records expiry {} instead of {}: it would be loaded after its validity ended", if key == MerkleHash::default() { "" } else { "non-" }, oinfo.metadata.shard_key_expiry, now.saturating_add(valid)), replay.clone());
+            }
             // dedup through the exported shard with UNKEYED queries gives the original answers
             for x in ca.values().take(6) { if x.chunks.is_empty() { continue; } let s = rng.below(x.chunks.len() as u64) as usize; let q: Vec<MerkleHash> = x.chunks[s..].iter().take(5).map(|c| c.chunk_hash).collect();
                 let a0 = info.chunk_hash_dedup_query(&mut Cursor::new(&bytes), &q).unwrap(); let a1 = oinfo.chunk_hash_dedup_query(&mut Cursor::new(&out), &q).unwrap();
